@@ -38,6 +38,7 @@ import (
 	"github.com/coreos/go-semver/semver"
 	"github.com/tikv/pd/server/config"
 	"github.com/tikv/pd/server/core"
+	"github.com/tikv/pd/server/schedule/placement"
 	"pdverif/livesrv"
 	"pdverif/vkit"
 	"pdverif/vkit/faultkv"
@@ -47,6 +48,8 @@ import (
 const (
 	findingLabelRollback = "C18/label-property-rollback-inverse"
 	findingReplModeHTTP  = "C18/replication-mode-http-merge-into-served"
+	findingRuleLabels    = "C18/replication-rule-labels-not-rolled-back"
+	findingEmptyLabels   = "C18/replication-empty-labels-nil-vs-empty"
 )
 
 func TestMain(m *testing.M)   { vkit.Main(m, "C18") }
@@ -436,6 +439,33 @@ func singleKey(js string) bool {
 	return json.Unmarshal([]byte(js), &m) == nil && len(m) == 1
 }
 
+// ruleView is (count, location labels) of the default placement rule pd/default, which
+// SetReplicationConfig keeps in step with the replication section while placement rules are enabled.
+type ruleView struct {
+	Count  int
+	Labels string // joined with ",": nil and empty are the same thing here
+}
+
+func (r ruleView) String() string { return fmt.Sprintf("{count %d labels [%s]}", r.Count, r.Labels) }
+
+func viewOfConfig(c *config.ReplicationConfig) ruleView {
+	return ruleView{Count: int(c.MaxReplicas), Labels: strings.Join(c.LocationLabels, ",")}
+}
+
+func actualRule(fx *livesrv.Fixture) (ruleView, bool) {
+	rc := fx.Svr.GetRaftCluster()
+	if rc == nil {
+		return ruleView{}, false
+	}
+	r := rc.GetRuleManager().GetRule("pd", "default")
+	if r == nil {
+		return ruleView{}, false
+	}
+	return ruleView{Count: r.Count, Labels: strings.Join(r.LocationLabels, ",")}, true
+}
+
+const msgRuleInconsistent = "default rules do not consistent"
+
 type prepared struct {
 	call      func() error
 	verdict   string
@@ -587,7 +617,9 @@ func prepare(fx *livesrv.Fixture, op Op) (*prepared, error) {
 		p.call = func() error { return s.SetClusterVersion(v.V) }
 		if op.HTTP {
 			p.desc = "POST /config/cluster-version " + p.desc
-			p.call = func() error { return post(fx, "/config/cluster-version", mustJSON(map[string]string{"cluster-version": v.V})) }
+			p.call = func() error {
+				return post(fx, "/config/cluster-version", mustJSON(map[string]string{"cluster-version": v.V}))
+			}
 		}
 	default:
 		return nil, fmt.Errorf("unknown op kind %q", op.Kind)
@@ -595,7 +627,26 @@ func prepare(fx *livesrv.Fixture, op Op) (*prepared, error) {
 	return p, nil
 }
 
+// runCase executes the case; a violation is reported only if it shows again when the same case is
+// executed a second time from scratch. The setters are sequential, deterministic code and a case is a
+// pure function of its data, so a genuine violation reproduces; one that does not was caused by
+// something outside the case (a background goroutine of the live server) and is counted as undecided.
 func runCase(c Case) (vkit.Info, error) {
+	info, err := runOnce(c)
+	if err == nil {
+		return info, nil
+	}
+	info2, err2 := runOnce(c)
+	if err2 == nil {
+		info2.Inconclusive = true
+		info2.Class("violation-not-reproduced")
+		fmt.Printf("C18: a violation did not reproduce on re-execution and is counted as undecided: %v\n", err)
+		return info2, nil
+	}
+	return info, err
+}
+
+func runOnce(c Case) (vkit.Info, error) {
 	var info vkit.Info
 	fx := livesrv.MustGet()
 	if !fx.Healthy() {
@@ -611,12 +662,18 @@ func runCase(c Case) (vkit.Info, error) {
 	}
 	classes := map[string]bool{}
 	accepted, rejected, failed := 0, 0, 0
+	// model of the default rule: ResetConfig set it to the base replication section; afterwards it follows
+	// every ACCEPTED replication update made with placement rules enabled and nothing else (a rejected or
+	// failed update leaves it alone; updates made while placement rules are off do not touch it).
+	ruleModel := viewOfConfig(fx.Svr.GetReplicationConfig())
 	for step, op := range c.Ops {
 		p, err := prepare(fx, op)
 		if err != nil {
 			return info, fmt.Errorf("harness: step %d %+v cannot be prepared: %v", step, op, err)
 		}
 		before := served(fx)
+		beforeRepl := fx.Svr.GetReplicationConfig()
+		ruleBefore, ruleOK := actualRule(fx)
 		where := fmt.Sprintf("step %d %s", step, p.desc)
 		for _, k := range p.excluded {
 			info.Exclude(k)
@@ -650,6 +707,16 @@ func runCase(c Case) (vkit.Info, error) {
 					if d := diffSnap(before, served(fx)); d != "" {
 						return info, vkit.Errf("%s: write %d of the update failed (error returned: %v) but the served configuration changed: %s", where, n, err, d)
 					}
+					if op.Kind == "replication" && ruleOK {
+						if ra, ok := actualRule(fx); ok && ra != ruleBefore {
+							if !vkit.Known(findingRuleLabels) {
+								return info, vkit.Errf("%s: write %d of the update failed (error returned: %v) but the default placement rule was left changed: %v => %v (replication section still %s)",
+									where, n, err, ruleBefore, ra, before[1])
+							}
+							info.Exclude(findingRuleLabels)
+							classes["known:rule-left-changed-after-failed-persist"] = true
+						}
+					}
 				}
 			}
 		}
@@ -662,11 +729,31 @@ func runCase(c Case) (vkit.Info, error) {
 			rejected++
 			classes["rejected:"+p.verdict] = true
 			if p.verdict == vValid {
-				msg := cleanErr.Error()
-				if len(msg) > 70 {
-					msg = msg[:70]
+				// A value inside every stated domain was refused. The only legitimate cause in this fixture: the
+				// replication section was changed while placement rules were off (the default rule is not touched
+				// then), so after re-enabling them rule and section disagree and SetReplicationConfig refuses
+				// max-replicas / location-labels changes ("please update rule instead"). The model knows when that
+				// is the case; a refusal it cannot explain is a violation (it used to be the visible effect of the
+				// default rule keeping new labels after a failed persist).
+				explained := op.Kind == "replication" && strings.Contains(cleanErr.Error(), msgRuleInconsistent) &&
+					ruleModel != viewOfConfig(beforeRepl)
+				inconsistent := op.Kind == "replication" && strings.Contains(cleanErr.Error(), msgRuleInconsistent)
+				switch {
+				case explained:
+					classes["valid-but-refused:rule-diverged-while-placement-rules-off"] = true
+				case inconsistent && vkit.Known(findingEmptyLabels) && ruleModel.Labels == "" && len(beforeRepl.LocationLabels) == 0:
+					// known class: rule and section agree, both without location labels, but one is nil and the other
+					// an empty slice and the setter compares them with reflect.DeepEqual
+					info.Exclude(findingEmptyLabels)
+					classes["known:valid-but-refused-empty-labels"] = true
+				case op.Kind == "replication" && strings.Contains(cleanErr.Error(), msgRuleInconsistent) && vkit.Known(findingRuleLabels):
+					info.Exclude(findingRuleLabels)
+					classes["known:valid-but-refused-after-failed-persist"] = true
+				default:
+					ra, _ := actualRule(fx)
+					return info, vkit.Errf("%s is inside every stated domain but was refused: %v (replication section %s, default rule %v, expected default rule %v)",
+						where, cleanErr, before[1], ra, ruleModel)
 				}
-				classes["valid-but-refused:"+op.Kind+": "+msg] = true
 			}
 			if d := diffSnap(before, after); d != "" {
 				return info, vkit.Errf("%s was rejected (%v) but the served configuration changed: %s", where, cleanErr, d)
@@ -678,6 +765,15 @@ func runCase(c Case) (vkit.Info, error) {
 		}
 		accepted++
 		classes["accepted:"+op.Kind] = true
+		if op.Kind == "replication" {
+			now := fx.Svr.GetReplicationConfig()
+			if now.EnablePlacementRules && viewOfConfig(now) != viewOfConfig(beforeRepl) {
+				ruleModel = viewOfConfig(now)
+			}
+			if ra, ok := actualRule(fx); ok && ra != ruleModel && !vkit.Known(findingRuleLabels) {
+				return info, vkit.Errf("%s accepted; the default placement rule is %v, expected %v (replication section %s)", where, ra, ruleModel, after[1])
+			}
+		}
 		classes["via-http"] = classes["via-http"] || op.HTTP
 		if p.verdict == vReject {
 			return info, vkit.Errf("%s was accepted although %s", where, p.why)
@@ -779,4 +875,87 @@ func TestFinding_replication_mode_http_merge_into_served(t *testing.T) {
 	}
 	fx.ResetConfig(w)
 	vkit.Finding(t, findingReplModeHTTP, e != nil && a != b, fmt.Sprintf("served %s; POST /config/replication-mode {replication-mode: quorum} => %v; served afterwards %s", a, e, b))
+}
+
+// TestFinding_replication_rule_labels_not_rolled_back: placement rules enabled; a
+// SetReplicationConfig that changes the location labels fails at its persist; the served
+// section is restored but the default rule used to keep the new labels, so the next valid
+// max-replicas change was refused with "default rules do not consistent".
+func TestFinding_replication_rule_labels_not_rolled_back(t *testing.T) {
+	defer livesrv.Shutdown()
+	fx, err := livesrv.Get()
+	if err != nil {
+		t.Logf("fixture did not start: %v", err)
+		return
+	}
+	w := fx.SwapStorage()
+	defer fx.RestoreStorage()
+	if err := fx.ResetConfig(w); err != nil {
+		t.Logf("probe undecided: %v", err)
+		return
+	}
+	s := fx.Svr
+	// precondition, established behind the setters: placement rules on, location labels [zone] in the
+	// replication section and in the default rule (non-empty, so that the separate nil-vs-empty
+	// comparison problem cannot interfere)
+	cfg := s.GetReplicationConfig()
+	cfg.EnablePlacementRules = true
+	cfg.LocationLabels = []string{"zone"}
+	s.GetPersistOptions().SetReplicationConfig(cfg.Clone())
+	if err := s.GetRaftCluster().GetRuleManager().SetRule(&placement.Rule{GroupID: "pd", ID: "default", Role: placement.Voter,
+		Count: int(cfg.MaxReplicas), LocationLabels: []string{"zone"}}); err != nil {
+		t.Logf("probe undecided: %v", err)
+		fx.ResetConfig(w)
+		return
+	}
+	cfg = s.GetReplicationConfig()
+	r0, _ := actualRule(fx)
+	cfg.LocationLabels = []string{"zone", "rack"}
+	w.FailNth(1)
+	e1 := s.SetReplicationConfig(*cfg)
+	w.ResetCounters()
+	r1, _ := actualRule(fx)
+	if e1 == nil || !strings.Contains(e1.Error(), faultkv.ErrInjected.Error()) {
+		t.Logf("probe undecided: the update with a failing persist did not fail at its persist: %v", e1)
+		fx.ResetConfig(w)
+		return
+	}
+	cfg = s.GetReplicationConfig()
+	cfg.MaxReplicas = 5
+	e2 := s.SetReplicationConfig(*cfg)
+	rep := e2 != nil && strings.Contains(e2.Error(), msgRuleInconsistent)
+	fx.ResetConfig(w)
+	vkit.Finding(t, findingRuleLabels, rep, fmt.Sprintf("default rule %v; SetReplicationConfig(location-labels zone,rack) with failing persist: err=%v, default rule afterwards %v; then SetReplicationConfig(max-replicas 5) without fault: err=%v", r0, e1, r1, e2))
+}
+
+// TestFinding_replication_empty_labels_nil_vs_empty: placement rules enabled (default), no
+// location labels (default): SetReplicationConfig(max-replicas 5) is refused with "default rules
+// do not consistent" although rule and section agree, because the rule copy returned by
+// RuleManager.GetRule went through JSON (location_labels omitempty => nil) and the setter compares
+// it with the section's empty slice using reflect.DeepEqual.
+func TestFinding_replication_empty_labels_nil_vs_empty(t *testing.T) {
+	defer livesrv.Shutdown()
+	fx, err := livesrv.Get()
+	if err != nil {
+		t.Logf("fixture did not start: %v", err)
+		return
+	}
+	w := fx.SwapStorage()
+	defer fx.RestoreStorage()
+	if err := fx.ResetConfig(w); err != nil {
+		t.Logf("probe undecided: %v", err)
+		return
+	}
+	s := fx.Svr
+	cfg := s.GetReplicationConfig()
+	if !cfg.EnablePlacementRules || len(cfg.LocationLabels) != 0 {
+		t.Logf("probe undecided: base is not the default (placement rules on, no labels): %s", mustJSON(cfg))
+		return
+	}
+	r0, _ := actualRule(fx)
+	cfg.MaxReplicas = 5
+	e := s.SetReplicationConfig(*cfg)
+	fx.ResetConfig(w)
+	vkit.Finding(t, findingEmptyLabels, e != nil && strings.Contains(e.Error(), msgRuleInconsistent),
+		fmt.Sprintf("replication section %s, default rule %v; SetReplicationConfig(max-replicas 5): err=%v", mustJSON(s.GetReplicationConfig()), r0, e))
 }
